@@ -81,6 +81,21 @@ def enum_variants(src, name, unit_only=True):
     return names
 
 
+def const_value(src, val, maxp, depth=0):
+    """A priority written as a literal, as MAX_PRIORITY_LEVEL_FOR_EXPRESSIONS, or as a named
+    `const NAME: u8 = <literal | other constant>;` of the same file (resolved transitively)."""
+    if val.isdigit():
+        return int(val)
+    if val == "MAX_PRIORITY_LEVEL_FOR_EXPRESSIONS":
+        return maxp
+    if depth > 8:
+        die("priority(): constant chain too long at %r" % val)
+    defs = re.findall(r"\bconst " + re.escape(val) + r"\s*:\s*u8\s*=\s*(?:Self::)?([A-Za-z0-9_]+)\s*;", strip_comments(src))
+    if len(defs) != 1:
+        die("priority(): unrecognised value %r" % val)
+    return const_value(src, defs[0], maxp, depth + 1)
+
+
 def priority_table(src, ops):
     m = re.search(r"pub const MAX_PRIORITY_LEVEL_FOR_EXPRESSIONS: u8 = (\d+);", src)
     if not m:
@@ -95,7 +110,7 @@ def priority_table(src, ops):
     table = {}
     # arms:  Self::A | Self::B => value,   or  => { value }
     arm_re = re.compile(
-        r"((?:Self::[A-Za-z]+\s*\|?\s*)+)=>\s*(?:\{\s*([A-Za-z0-9_]+)\s*\}|([A-Za-z0-9_]+))\s*,?", re.S
+        r"\|?\s*((?:Self::[A-Za-z]+\s*\|?\s*)+)=>\s*(?:\{\s*(?:Self::)?([A-Za-z0-9_]+)\s*\}|(?:Self::)?([A-Za-z0-9_]+))\s*,?", re.S
     )
     pos = 0
     body_stripped = body.strip()
@@ -105,12 +120,7 @@ def priority_table(src, ops):
             die("priority(): unrecognised text %r" % between)
         pos = am.end()
         val = am.group(2) or am.group(3)
-        if val == "MAX_PRIORITY_LEVEL_FOR_EXPRESSIONS":
-            v = maxp
-        elif val.isdigit():
-            v = int(val)
-        else:
-            die("priority(): unrecognised value %r" % val)
+        v = const_value(src, val, maxp)
         for vn in re.findall(r"Self::([A-Za-z]+)", am.group(1)):
             if vn in table:
                 die("priority(): %s listed twice" % vn)
@@ -187,6 +197,11 @@ def main():
         prio += "  | O%s => %d\n" % (o, table[o])
     prio += "  end.\n"
 
+    if "--dry" in sys.argv:
+        # compare with what is on disk without writing (used to try the translator on scratch trees)
+        same = [open(os.path.join(OUT, n)).read() == c for n, c in (("Enums.v", enums), ("Priority.v", prio))]
+        print("gen_from_src (dry): Enums.v %s, Priority.v %s" % tuple("same" if x else "DIFFERENT" for x in same))
+        return
     c1 = write_if_changed(os.path.join(OUT, "Enums.v"), enums)
     c2 = write_if_changed(os.path.join(OUT, "Priority.v"), prio)
     print("gen_from_src: Enums.v %s, Priority.v %s" % ("rewritten" if c1 else "unchanged", "rewritten" if c2 else "unchanged"))
